@@ -82,7 +82,9 @@ type Subscriber struct {
 	watchDone chan struct{}
 	// distDone signals that the distributeEvents function exited.
 	distDone chan struct{}
-	asyncWG  sync.WaitGroup
+	// cleanerDone signals that the idleHandlerCleaner function exited.
+	cleanerDone chan struct{}
+	asyncWG     sync.WaitGroup
 
 	ipniSync *ipnisync.Sync
 
@@ -220,6 +222,7 @@ func NewSubscriber(host host.Host, lsys ipld.LinkSystem, options ...Option) (*Su
 		addEventChan: make(chan chan<- SyncFinished),
 		rmEventChan:  make(chan chan<- SyncFinished),
 		distDone:     make(chan struct{}),
+		cleanerDone:  make(chan struct{}),
 
 		ipniSync: ipniSync,
 
@@ -347,6 +350,8 @@ func (s *Subscriber) doClose() error {
 	// Wait until the distributor has forwarded any event still in the channel
 	// and closed the OnSyncFinished channels.
 	<-s.distDone
+	// Wait for the idle handler cleaner, which exits when closing is closed.
+	<-s.cleanerDone
 
 	s.httpPeerstore.Close()
 
@@ -726,6 +731,8 @@ func (s *Subscriber) releaseHandler(hnd *handler) {
 // idleHandlerCleaner periodically looks for idle handlers to remove. This
 // prevents accumulation of handlers that are no longer in use.
 func (s *Subscriber) idleHandlerCleaner() {
+	defer close(s.cleanerDone)
+
 	t := time.NewTimer(s.idleHandlerTTL)
 
 	for {
